@@ -221,6 +221,12 @@ class UFinal(Exception):
     raise TypeError('UFinal cannot be subclassed')
 
 
+class UFinalRuntime(Exception):
+  """Refuses to be subclassed, with an error class of its own choosing."""
+  def __init_subclass__(cls, **kw):
+    raise RuntimeError('UFinalRuntime is final')
+
+
 class UReadOnlyArgs(Exception):
   args = property(lambda self: ('fixed', 1))
 
@@ -301,7 +307,7 @@ USER = {
     'UClassDefault': lambda: UClassDefault('cd', 5), 'UNewMismatch': lambda: UNewMismatch(3, 'd'),
     'UDescr': lambda: UDescr('quota', 100, 'acme'),
     'USlotsNew': lambda: USlotsNew(100, 120), 'USlotsNewChangedLater': _slots_new_changed,
-    'UFinal': lambda: UFinal('x'), 'UReadOnlyArgs': lambda: UReadOnlyArgs('y'), 'UValidatingNew': lambda: UValidatingNew(404, 'nf'),
+    'UFinal': lambda: UFinal('x'), 'UFinalRuntime': lambda: UFinalRuntime('x'), 'UReadOnlyArgs': lambda: UReadOnlyArgs('y'), 'UValidatingNew': lambda: UValidatingNew(404, 'nf'),
     'GroupArgsReassigned': lambda: _regroup(),
     'UDownload': lambda: UDownload('http://host/file', 503, 'busy'), 'BlockingIO3': lambda: BlockingIOError(11, 'would block', 7),
     'OSError5': lambda: OSError(13, 'denied', '/a', None, '/b'),
